@@ -34,6 +34,14 @@ FAULTS = [
     lambda o: ['fn', 'IFERROR', [['miss', 'ref', "'[GONE.XLSX]S1'!B2"], ['c', V.N(9)]]],
     lambda o: ['fn', 'ISERROR', [['miss', 'name', 'NOSUCHNAME']]],
     lambda o: ['miss', 'name', 'NOSUCHNAME'],
+    # several distinct unresolved items in ONE formula, each intercepted on its own
+    lambda o: ['op', '+', ['fn', 'IFERROR', [['miss', 'name', 'NOPE_A'], ['c', V.N(10)]]],
+               ['fn', 'IFERROR', [['miss', 'name', 'NOPE_B'], ['c', V.N(20)]]]],
+    lambda o: ['fn', 'SUM', [['fn', 'IFERROR', [['miss', 'name', 'NOPE_A'], ['c', V.N(1)]]],
+                             ['fn', 'IFERROR', [['miss', 'name', 'NOPE_B'], ['c', V.N(2)]]],
+                             ['fn', 'IFERROR', [['miss', 'ref', 'NOSHEET!A1'], ['c', V.N(3)]]]]],
+    lambda o: ['op', '+', ['fn', 'IFERROR', [['miss', 'ref', 'NOSHEET!A1'], ['c', V.N(5)]]],
+               ['fn', 'IFERROR', [['miss', 'ref', 'ZZGONE!B1'], ['c', V.N(7)]]]],
     lambda o: ['op', '*', ['miss', 'ref', '#REF!'], ['c', V.N(2)]],
     lambda o: ['fn', 'SUM', [['miss', 'ref', 'NOSHEET!A1:B2'], ['c', V.N(1)]]],
     lambda o: ['miss', 'ref', "'[BAD.XLSX]S1'!A1"],
